@@ -4,6 +4,30 @@ import json
 ALL = ["C%02d" % i for i in range(1, 21)]
 # id -> (category, level text, level note, technique, design ref)
 CHECKS = {
+ "C02": ("exploration",
+   "bounded-exhaustive sweep (every single hunk with <=2 context lines each side and <=1 removed/added line over a two-letter alphabet, against every file up to length 5/6, every stated line, every fuzz limit <=2) plus seeded random multi-hunk cases; each reported placement is checked against a brute-force reference of the patch(1) rules (old side really there, anchoring, nearest match with forward ties, lowest admissible fuzz level, no-match only when no level admits a position)",
+   "trusts the reference model's reading of the rules; where the statement admits two readings both are accepted and counted (lenient_skips)",
+   "property-based testing: exhaustive small-alphabet sweep + random generation; oracle = independent brute-force reference model of placement"),
+ "C03": ("exploration",
+   "seeded random multi-hunk patches over small repetitive files (overlapping contexts, contexts over changed lines, shuffled order, fuzz, both directions); the patched file must equal an independent reconstruction from the hunk reports in which only changed lines are replaced",
+   "the reconstruction takes the reported positions as given (their correctness is C02); sampled, not exhaustive",
+   "property-based testing: generated multi-hunk patches; oracle = line-level reconstruction from reports (reference model)"),
+ "C04": ("exploration",
+   "seeded random histories of 1-5 applications (modify with partial failures, create, delete, truncate, mode change; both directions; fuzz 0-2) on one file followed by LIFO rollback; after each undo the {content, deleted, permissions} must equal the recorded earlier state and nothing may panic; rename undo is exercised at CLI level by C05/C06",
+   "in-process part uses the libpatch API the binary uses; sampled histories",
+   "property-based testing: stateful histories (apply* then rollback*) with an inverse oracle"),
+ "C05": ("exploration",
+   "generated quilt workspaces with an independent tree model: the real binary is run on thousands of by-construction series (failures injected at any position/subset, all operations, dialects, options, goals) and exit status, tree (bytes+modes), applied-patches and the set of rejects are compared with the model",
+   "trusts the harness's tree model and diff renderer; shapes of open known findings are excluded by construction and counted",
+   "property-based testing: workspace generator with by-construction model T_0..T_n; oracle = model comparison after running the binary"),
+ "C13": ("exploration",
+   "generated failing quilt workspaces; the set of *.rej files and, through the harness's own unified-diff reader, their hunks are compared with the generator's knowledge of which hunks cannot apply; each reject must also be accepted by the tool's parser and name its file",
+   "trusts the generator's failure injection (sentinel lines, missing files, create-over-existing, delete mismatch)",
+   "property-based testing: failure-injecting workspace generator; oracle = expected reject set and contents by construction"),
+ "C20": ("exploration",
+   "metamorphic relation between two runs of the same generated input at fuzz limits F < F': whenever the F run applies completely the F' run must too, with the identical result (in-process at file-patch level and through the binary on generated series)",
+   "only complete successes at F constrain the F' run",
+   "property-based testing: metamorphic oracle over generated hunks/series and pairs of fuzz limits"),
  "C01": ("exploration",
    "by-construction oracle over generated file pairs: the harness builds A, derives B by an edit script, renders the unified diff in a random accepted header dialect and requires libpatch (in-process) and the real binary (1 in 13 cases, both directions) to produce exactly B resp. A with offset 0 / fuzz 0; a sampled search over a very large input space, not a proof",
    "trusts the harness's diff renderer (self-checked by an independent exact applier in the regression inputs) and that /dev/null is the spelling of an absent side",
